@@ -19,6 +19,9 @@ pub enum Class {
     Format,
     /// STREAMINFO min/max block/frame size fields are invalid or inexact.
     Bounds,
+    /// Informational only (never a violation): e.g. a prediction that is only correct modulo
+    /// 2^32, which every real decoder (32-bit sample storage) handles.
+    Note,
 }
 
 #[derive(Clone, Debug)]
@@ -524,6 +527,15 @@ pub fn parse_frame_header(
 
 // ---------------------------------------------------------------- subframes
 
+/// Decoded samples are kept in 32-bit storage (two's complement wrap), like real decoders.
+fn wrap32(x: i64, wrapped: &mut bool) -> i64 {
+    let w = i64::from(x as i32);
+    if w != x {
+        *wrapped = true;
+    }
+    w
+}
+
 const FIXED_COEFS: [&[i64]; 5] = [&[], &[1], &[2, -1], &[3, -3, 1], &[4, -6, 4, -1]];
 
 fn parse_residual(
@@ -658,6 +670,7 @@ fn parse_subframe(
     let w = (bps - wasted) as usize;
     let lim_lo = -(1i64 << (w - 1));
     let lim_hi = (1i64 << (w - 1)) - 1;
+    let mut wrapped = false;
     let mut rep = SubReport {
         kind: SubKind::Constant,
         bps,
@@ -705,7 +718,7 @@ fn parse_subframe(
                 for (j, cj) in c.iter().enumerate() {
                     pred += cj * rep.samples[t - 1 - j];
                 }
-                rep.samples.push(pred + e);
+                rep.samples.push(wrap32(pred + e, &mut wrapped));
             }
             rep.residual = Some(res);
         }
@@ -746,13 +759,21 @@ fn parse_subframe(
                 for (j, cj) in rep.coefs.iter().enumerate() {
                     pred += i64::from(*cj) * rep.samples[t - 1 - j];
                 }
-                rep.samples.push((pred >> shift) + e);
+                rep.samples.push(wrap32((pred >> shift) + e, &mut wrapped));
             }
             rep.residual = Some(res);
         }
         _ => {
             return Err(fatal("subframe.type.reserved", format!("subframe type {typ:06b}"), frame));
         }
+    }
+    if wrapped {
+        issues.push(Issue {
+            class: Class::Note,
+            clause: "subframe.prediction.wraps32",
+            detail: "prediction + residual is only correct modulo 2^32 (decoded samples are stored in 32 bits, as every real decoder does)".into(),
+            frame,
+        });
     }
     // range check before applying wasted bits
     if let Some((i, v)) = rep
